@@ -8,6 +8,7 @@
 //           scanner : IG WF DG SG          ns : 0 1
 //           opts    : e<0|1> create entity-reference nodes   w<0|1> include ignorable white space
 //                     f<0..6> DOMLSParserFilter (ls only)     v<0|1> validation (Val_Always)
+//                     s<0|1> schema processing on, with a cached (accept-anything) schema grammar for urn:u (not ls)
 //   stdout: one line per input line:  cfg=<dump> TAB cfg=<dump> ...
 //   dump tokens (space separated; text escaped as %hex; for everything outside 0x21..0x7E and for % : @ = ~):
 //       F<code>                        first fatal error (XMLErrs code), parse results up to it follow
@@ -44,6 +45,7 @@
 #include <xercesc/dom/DOMLSException.hpp>
 #include <xercesc/dom/DOMLSParserFilter.hpp>
 #include <xercesc/util/XMLUni.hpp>
+#include <xercesc/validators/common/Grammar.hpp>
 #include <xercesc/util/OutOfMemoryException.hpp>
 
 using namespace hx;
@@ -303,8 +305,16 @@ static const XMLCh* scannerName(const std::string& s) {
 
 struct LsErr : DOMErrorHandler { bool handleError(const DOMError&) override { return true; } };
 
+// s1: schema processing on (validation off) with a cached schema grammar for the namespace urn:u, so that the scanner
+// works on a schema grammar (element declarations pooled by expanded name); the schema accepts anything
+static const char* kSchema =
+    "<xs:schema xmlns:xs='http://www.w3.org/2001/XMLSchema' targetNamespace='urn:u' elementFormDefault='qualified'>"
+    "<xs:complexType name='any' mixed='true'><xs:sequence><xs:any processContents='lax' minOccurs='0' maxOccurs='unbounded'/></xs:sequence>"
+    "<xs:anyAttribute processContents='lax'/></xs:complexType>"
+    "<xs:element name='x' type='any'/><xs:element name='y' type='any'/></xs:schema>";
+
 struct Config {
-    std::string api, scanner; bool ns = false; int e = 1, w = 1, f = 0, v = 0;
+    std::string api, scanner; bool ns = false; int e = 1, w = 1, f = 0, v = 0, sc = 0;
     std::unique_ptr<MySAX> sax; std::unique_ptr<MySAX2> sax2; std::unique_ptr<MyDOM> dom; std::unique_ptr<MyLS> ls;
     std::unique_ptr<Filt> filt; LsErr lh; HandlerBase dummy;
     struct Quiet : HandlerBase { void fatalError(const SAXParseException&) override {} void error(const SAXParseException&) override {} void warning(const SAXParseException&) override {} } quiet;
@@ -316,9 +326,10 @@ struct Config {
             sax->useScanner(sn);
             sax->setValidationScheme(v ? SAXParser::Val_Always : SAXParser::Val_Never);
             sax->setDoNamespaces(ns);
-            sax->setDoSchema(false);
+            sax->setDoSchema(sc != 0);
             sax->setLoadExternalDTD(false);
             sax->setDisableDefaultEntityResolution(true);
+            if (sc) { MemBufInputSource g((const XMLByte*)kSchema, strlen(kSchema), "hx-schema", false); sax->loadGrammar(g, Grammar::SchemaGrammarType, true); sax->useCachedGrammarInParse(true); }
         } else if (api == "sax2" || api == "psax2") {
             sax2.reset(new MySAX2());
             sax2->setProperty(XMLUni::fgXercesScannerName, (void*)sn);
@@ -326,21 +337,23 @@ struct Config {
             sax2->setFeature(XMLUni::fgXercesDynamic, false);
             sax2->setFeature(XMLUni::fgSAX2CoreNameSpaces, ns);
             sax2->setFeature(XMLUni::fgSAX2CoreNameSpacePrefixes, true);
-            sax2->setFeature(XMLUni::fgXercesSchema, false);
+            sax2->setFeature(XMLUni::fgXercesSchema, sc != 0);
             sax2->setFeature(XMLUni::fgXercesLoadExternalDTD, false);
             sax2->setFeature(XMLUni::fgXercesDisableDefaultEntityResolution, true);
+            if (sc) { MemBufInputSource g((const XMLByte*)kSchema, strlen(kSchema), "hx-schema", false); sax2->loadGrammar(g, Grammar::SchemaGrammarType, true); sax2->setFeature(XMLUni::fgXercesUseCachedGrammarInParse, true); }
         } else if (api == "dom" || api == "pdom") {
             dom.reset(new MyDOM());
             dom->useScanner(sn);
             dom->setValidationScheme(v ? XercesDOMParser::Val_Always : XercesDOMParser::Val_Never);
             dom->setDoNamespaces(ns);
-            dom->setDoSchema(false);
+            dom->setDoSchema(sc != 0);
             dom->setLoadExternalDTD(false);
             dom->setDisableDefaultEntityResolution(true);
             dom->setCreateEntityReferenceNodes(e != 0);
             dom->setIncludeIgnorableWhitespace(w != 0);
             dom->setCreateCommentNodes(true);
             dom->setErrorHandler(&quiet);
+            if (sc) { MemBufInputSource g((const XMLByte*)kSchema, strlen(kSchema), "hx-schema", false); dom->loadGrammar(g, Grammar::SchemaGrammarType, true); dom->useCachedGrammarInParse(true); }
         } else if (api == "ls") {
             ls.reset(new MyLS());
             DOMConfiguration* c = ls->getDomConfig();
@@ -437,7 +450,7 @@ static Config* getConfig(const std::string& name) {
         for (size_t i = 0; i + 1 < o.size(); i += 2) {
             int dgt = o[i + 1] - '0';
             if (dgt < 0 || dgt > 9) return 0;
-            switch (o[i]) { case 'e': c->e = dgt; break; case 'w': c->w = dgt; break; case 'f': c->f = dgt; break; case 'v': c->v = dgt; break; default: return 0; }
+            switch (o[i]) { case 'e': c->e = dgt; break; case 'w': c->w = dgt; break; case 'f': c->f = dgt; break; case 'v': c->v = dgt; break; case 's': c->sc = dgt; break; default: return 0; }
         }
     }
     if (!c->build()) return 0;
